@@ -403,7 +403,7 @@ class FullOps(TorchCalls):
             return TV(kind="pyfloat", note="finfo:" + tag, dtype="Py")
         if fn in ("is_tensor", "is_floating_point"):
             return TV(kind="pybool", dtype="Bool")
-        if a0 is None and fn not in ("cat", "concatenate", "stack", "vstack", "hstack", "vmap", "grad", "backward", "apply_along_axis", "block_diag"):
+        if a0 is None and fn not in ("cat", "concatenate", "stack", "vstack", "hstack", "vmap", "grad", "backward", "apply_along_axis", "block_diag", "multi_dot"):
             return self.unk(f"{lib}{fn} on non-numeric argument", node)
 
         if fn in ("isfinite", "isnan", "isinf"):
@@ -456,7 +456,10 @@ class FullOps(TorchCalls):
             if x is None or y is None:
                 return self.unk("where with one argument", node)
             r = self.elementwise(x, y, "max", node)
-            return self.elementwise(r, c.but(deg=Z), "add", node).but(deg=r.deg, poly=None)
+            out = self.elementwise(r, c.but(deg=Z), "add", node).but(deg=r.deg, poly=None)
+            # the condition selects, it does not contribute a value: its provenance is kept apart (`#ctl`) like the test of an if statement
+            ctl = frozenset(o if o.endswith(("#ctl", "#meta")) else o + "#ctl" for o in c.origin)
+            return out.but(origin=x.origin | y.origin | ctl)
         if fn == "normalize":
             # F.normalize(x, p=2, dim=1, eps=1e-12): x / max(||x||, eps): absolute epsilon
             self.ev("scale_branch", node, left=str(a0.deg), right="0",
@@ -770,6 +773,8 @@ class FullOps(TorchCalls):
         qd = tvs.get("q").deg if "q" in tvs else Z
         if qd == Z and "h" in tvs and "G" in tvs:
             deg = deg_sub(tvs["h"].deg, tvs["G"].deg)
+        elif qd == Z and "lb" in tvs and "G" not in tvs and "ub" not in tvs:
+            deg = tvs["lb"].deg  # v >= lb is -I v <= -lb
         elif all(t.deg in (F0, Z) for t in tvs.values()):
             deg = F0
         else:
